@@ -2,6 +2,7 @@ package main
 
 import (
 	"fmt"
+	"reflect"
 	"unsafe"
 
 	"gorgonia.org/tensor"
@@ -55,6 +56,14 @@ type argRec struct {
 	what           string
 }
 
+// backRec: a caller-owned slice of which only the front part was given to a tensor as backing.
+type backRec struct {
+	full reflect.Value
+	n    int
+	tail string
+	step int
+}
+
 type sliceRec struct {
 	live     []tensor.Slice
 	pristine [][3]int
@@ -67,6 +76,7 @@ type World struct {
 	iters   []tensor.Iterator
 	args    []argRec
 	sargs   []sliceRec
+	backs   []backRec
 	adv     bool // adversarial world: the caller overwrites its argument slices after each call
 	scribN  uint64
 	step    int
@@ -169,6 +179,12 @@ func (w *World) checkArgs() string {
 			if a.live[j] != a.pristine[j] {
 				return fmt.Sprintf("caller's %s slice passed at step %d changed from %v to %v", a.what, a.step, a.pristine, a.live)
 			}
+		}
+	}
+	for i := range w.backs {
+		b := &w.backs[i]
+		if now := fmt.Sprint(b.full.Slice(b.n, b.full.Len()).Interface()); now != b.tail {
+			return fmt.Sprintf("caller's backing slice passed at step %d: the part beyond the %d elements given to the tensor changed from %s to %s", b.step, b.n, b.tail, now)
 		}
 	}
 	for i := range w.sargs {
